@@ -172,6 +172,7 @@ class LoopSpec:
     havoc: object = None           # callable(it, frame) -> None : replace modified locals/fields by fresh values
     variant: object = None         # callable(it, frame) -> z3 Int
     elem: object = None            # for `for` over a symbolic sequence: callable(it, frame, k) -> element value
+    on_entry: object = None        # callable(it, frame): snapshot entry values into frame.locals (ghost)
 
 # ------------------------------------------------------------------ interpreter
 
@@ -450,6 +451,7 @@ class Interp:
             k = '_k%d' % ordinal
             fr.locals[k] = 0
             fr.locals['_iter%d' % ordinal] = itv
+        if spec.on_entry: spec.on_entry(self, fr)
         check_inv('init')
         spec.havoc(self, fr)
         if is_for:
